@@ -55,7 +55,7 @@ PROPS = {
         "text": "no model read path reaches a panic outcome (proved for all inputs); hostile/mutated/truncated streams through the real readers under catch_unwind",
     },
     "C09": {
-        "lean": ["PnaVerif.Props.Consts", "PnaVerif.Props.C09", "PnaVerif.Props.C09Fs", "PnaVerif.Props.C09Confined"],
+        "lean": ["PnaVerif.Props.Consts", "PnaVerif.Props.C09", "PnaVerif.Props.C09Fs", "PnaVerif.Props.C09Confined", "PnaVerif.Props.C09Perm"],
         "families": ["codec", "extract-fs"],
         "cli": True,
         "ops": {"codec": ["name.sanitize", "fhed.dec", "fhed.reenc", "ref.normalize", "utf8"], "extract-fs": ["extract"]},
@@ -146,7 +146,7 @@ PROPS = {
         "text": "order of results = order of submission under every schedule for the pipeline shape extracted from the sources on every run; witness schedules for the parallel shapes; real binary under pool sizes 1..32 and CPU contention",
     },
     "C20": {
-        "lean": ["PnaVerif.Props.Consts", "PnaVerif.Props.C20"],
+        "lean": ["PnaVerif.Props.Consts", "PnaVerif.Props.C20", "PnaVerif.Props.C09Perm"],
         "families": ["canary", "extract-fs"],
         "cli": True,
         "ops": {"extract-fs": ["extract"], "canary": []},
